@@ -503,6 +503,11 @@ class Session:
                     self.violate(i, name, "O1", {"what": "argument %s changed by the call" % k, "before": a["lit"], "after": cn.canon(live[k])}, "target=arg:" + k)
                     if out1[0] == "exc" and "E2" in O:
                         self.violate(i, name, "E2", {"what": "argument %s changed by a call that raised" % k}, "argument changed by a failing call")
+                if "slots" in a:
+                    # a list of pool members handed to the call (e.g. the contracts of write_contracts_to_file): the list itself is the caller's
+                    want = [self.pool[sl] for sl in a["slots"]]
+                    if len(live[k]) != len(want) or any(x is not y for x, y in zip(live[k], want)):
+                        self.violate(i, name, "O1", {"what": "the list passed as argument %s was modified by the call" % k}, "target=arg:" + k)
         if "O2" in O:
             self.check_modstate(i, name, "by the call")
             if name in PARSE_OPS:
